@@ -27,12 +27,27 @@ import (
 // If the tree has no sketch.frequency / cache.evictNode methods the probes are never inserted and
 // the rule is silent (counters "admission-frequency-lookups" / "admission-decisions-checked" stay
 // zero); nothing else depends on them.
+//
+// Second rule, for the eviction that needs no comparison ("only the victim is present"): the loop
+// reaches that state only after its candidate walk has gone through every arrival of this run of
+// the loop - the nodes it moved from the window into the main region - and through the window
+// itself, and each candidate it passes is either evicted or compared (its estimate looked up). So
+// when a live main-region victim is evicted without any look-up since the previous attempt while
+// an arrival that is alive, has positive weight, was never looked up and never offered for eviction
+// in this run still sits in the probation queue or the window, the victim is being displaced by
+// arrivals the loop never considered. Needs the third optional observation point (entry of
+// policy.evictNodes) to know where a run of the loop begins; without it the rule is silent.
 type admitWatch struct {
 	cr         *concRun
 	task       *simrt.Task
 	beforeMain map[int]bool
 	lookups    []int
 	quiet      bool // the harness itself is reading estimates
+	// one run of the eviction loop
+	loopMainVals map[int]bool // values linked in the main region when the loop began
+	loopMainKeys map[int]bool
+	loopLooked   map[int]bool // keys whose estimate was looked up in this run
+	loopOffered  map[int]bool // values offered for eviction in this run
 }
 
 func (cr *concRun) watchAdmission() {
@@ -47,9 +62,21 @@ func (cr *concRun) watchAdmission() {
 			return
 		}
 		switch name {
+		case "policy.evictNodes":
+			aw.loopMainVals, aw.loopMainKeys = map[int]bool{}, map[int]bool{}
+			aw.loopLooked, aw.loopOffered = map[int]bool{}, map[int]bool{}
+			for _, n := range otter.VerifPolicyNodes(r.C) {
+				if n.Queue != 0 {
+					aw.loopMainVals[n.Value], aw.loopMainKeys[n.Key] = true, true
+				}
+			}
+			cr.probe["admission-eviction-loops-observed"]++
 		case "sketch.frequency":
 			if k, ok := arg.(int); ok {
 				aw.lookups = append(aw.lookups, k)
+				if aw.loopLooked != nil {
+					aw.loopLooked[k] = true
+				}
 				cr.probe["admission-frequency-lookups"]++
 			}
 		case "cache.evictNode":
@@ -74,6 +101,7 @@ func (cr *concRun) watchAdmission() {
 	}, func() {
 		aw.task = nil
 		aw.beforeMain = nil
+		aw.loopMainVals, aw.loopMainKeys, aw.loopLooked, aw.loopOffered = nil, nil, nil, nil
 	})
 }
 
@@ -82,6 +110,9 @@ func (aw *admitWatch) onEvict(k, v int, alive bool) {
 	cr := aw.cr
 	looked := aw.lookups
 	aw.lookups = nil
+	if aw.loopOffered != nil {
+		aw.loopOffered[v] = true
+	}
 	if !alive || !aw.beforeMain[v] || cr.cc.Cfg.weightOf(v) == 0 {
 		return
 	}
@@ -103,6 +134,20 @@ func (aw *admitWatch) onEvict(k, v int, alive bool) {
 	}
 	if n == 0 {
 		cr.probe["admission-evictions-without-comparison"]++
+		if aw.loopMainVals == nil || !aw.loopMainVals[v] {
+			return
+		}
+		for _, a := range otter.VerifPolicyNodes(cr.r.C) {
+			if a.Queue == 2 || !a.Alive || a.Weight == 0 || a.Value == v {
+				continue
+			}
+			if aw.loopMainVals[a.Value] || aw.loopMainKeys[a.Key] || aw.loopLooked[a.Key] || aw.loopOffered[a.Value] {
+				continue
+			}
+			fa, _, _ := otter.VerifFrequency(cr.r.C, a.Key)
+			cr.fail(P("C18"), "admit.victim-evicted-unconsidered-arrival", k, "key %d (estimate %d, in the main region since before this run of the eviction loop) is being evicted for size without any comparison although key %d (value %d, estimate %d, queue %d), which arrived after the loop began, is alive and was neither compared nor offered for eviction in this run", k, fv, a.Key, a.Value, fa, a.Queue)
+			break
+		}
 		return
 	}
 	cr.probe["admission-decisions-checked"]++
